@@ -487,3 +487,25 @@ func HexCap(b []byte, n int) string {
 	}
 	return hex.EncodeToString(b[:n]) + fmt.Sprintf("…(%d bytes)", len(b))
 }
+
+// Require runs a precondition of the whole engine (reference anchors, fixture
+// self-checks) in every child process. If it fails, a harness fault is logged
+// (the driver then reports the run as inconclusive, never as a verdict) and
+// false is returned; the generator must not go on.
+func (r *Runner) Require(name string, fn func() error) bool {
+	var err error
+	func() {
+		defer func() {
+			if p := recover(); p != nil {
+				err = fmt.Errorf("panic: %v\n%s", p, trimStack(string(debug.Stack())))
+			}
+		}()
+		err = fn()
+	}()
+	if err != nil {
+		r.write(rec{"t": "harness_fault", "name": name, "err": err.Error()}, true)
+		return false
+	}
+	r.Count("require_ok:"+name, 1)
+	return true
+}
